@@ -778,6 +778,10 @@ class C16:
                     viol(i, 'the scanner compiled from the re-read configuration differs from the original one',
                          dump=r.get('dump1'), dump2=r.get('dump2'))
                     continue
+                if r.get('other_build_paths_equal') is False:
+                    viol(i, 'the re-read configuration built through build() or through Scanner::try_from compiles to other automata than '
+                            'build_uncached of the original one')
+                    continue
                 if not r.get('streams_equal'):
                     viol(i, 'the scanner built from the re-read configuration produces different tokens',
                          streams=r.get('streams'), streams2=r.get('streams2'))
